@@ -56,6 +56,21 @@ try:
     call("capture", capture, lambda x: x * x, [12])
     def again(y): return [y, keep["w"]]
     call("captured-wire-returned-again", again, lambda y: [y, 144], [2])
+    # the SAME container object at several positions of one call (and of one result)
+    norm = lambda u, v: sum(x * y for x, y in zip(u, v))
+    vec = [3, 4]
+    call("same-list-twice-in-one-call", norm, norm, [vec, vec])
+    row = [1, 2]
+    mat = lambda m: m[0][0] + m[1][1] + m[2][0]
+    call("same-row-twice-in-a-matrix", mat, mat, [[row, [5, 6], row]])
+    tp = (2, 5)
+    call("same-tuple-twice", lambda a, b: a[0] * b[1], lambda a, b: a[0] * b[1], [tp, tp])
+    dd2 = {"k": 3}
+    call("same-dict-twice", lambda a, b: a["k"] + b["k"], lambda a, b: a["k"] + b["k"], [dd2, dd2])
+    def same_result_list(x):
+        sq = [x * x, x + 1]
+        return [sq, sq]
+    call("same-result-list-twice", same_result_list, lambda x: [[x * x, x + 1], [x * x, x + 1]], [7])
     three = lambda a, b: [a + b, [a * b, a + b], (a, b)]
     call("shared-subresult", lambda a, b: (lambda s_: [s_, [a * b, s_], (a, b)])(a + b), three, [4, 6])
     # nested structures of every kind in arguments and results: dict in dict, list in dict in tuple, dict in list
